@@ -14,5 +14,16 @@ import vlib
 with vlib.BuildLock():
     vlib.ocaml_build()
     vlib.harness_build()
+    # warm the Print Assumptions cache of every property file (the task-state ones take minutes)
+    import json, threading
+    pids = [c["property_id"] for c in json.load(open("MANIFEST.json"))["checks"]]
+    def warm(p):
+        try:
+            vlib.prop_theorems(p)
+        except Exception as e:
+            print("warm", p, "failed:", e)
+    ths = [threading.Thread(target=warm, args=(p,)) for p in pids]
+    for t in ths: t.start()
+    for t in ths: t.join()
 print("setup ok")
 PY
